@@ -288,7 +288,75 @@ def probe_isolation(inp: Dict[str, Any]) -> Dict[str, Any]:
     return {"ok": not bad, "observed": bad or [f"cross-talk {d:.1e}"], "expected": "per-trajectory isolation", "predicate": "", "fields": {"kinds": ["isolation"] if bad else [], "fixed_substeps": inp.get("substeps") is not None}}
 
 
-PROBES = {"norm": probe_norm, "hop_probabilities": probe_hop_probabilities, "rescale": probe_rescale, "relabel": probe_relabel, "isolation": probe_isolation}
+def _crossing_inputs(rng, nmol, n, nov):
+    """per trajectory: orthonormal amplitude rows at the old geometry; at the new geometry the same rows slightly rotated, and for some
+    trajectories two neighbouring states exchanged (a trivial crossing); random hold-off history"""
+    ref = np.zeros((nmol, n, nov))
+    tgt = np.zeros((nmol, n, nov))
+    swapped = []
+    for m in range(nmol):
+        qm, _ = np.linalg.qr(rng.normal(size=(nov, nov)))
+        ref[m] = qm[:n]
+        g = rng.normal(size=(nov, nov)) * 0.02
+        rot, _ = np.linalg.qr(np.eye(nov) + g - g.T)
+        t = ref[m] @ rot
+        swapped.append(-1)
+        if rng.uniform() < 0.7:
+            i = int(rng.integers(0, n - 1))
+            t[[i, i + 1]] = t[[i + 1, i]]
+            swapped[-1] = i
+        tgt[m] = t
+    hold = np.where(rng.uniform(size=nmol) < 0.45, rng.integers(1, 4, size=nmol), 0)
+    prev = np.where(hold > 0, rng.integers(0, n, size=nmol), -1)
+    active = rng.integers(0, n, size=nmol)
+    for m in range(nmol):
+        # the interesting histories: a trajectory right after a hop whose active state is one of the crossing pair (it is only probed)
+        if swapped[m] >= 0 and rng.uniform() < 0.7:
+            active[m] = swapped[m] + int(rng.integers(0, 2))
+    nd0, nd1 = _rand_nac(rng, nmol, n, 0.05), _rand_nac(rng, nmol, n, 0.05)
+    return ref, tgt, hold, prev, active, nd0, nd1
+
+
+def _crossing_call(idx, n, ref, tgt, hold, prev, active, nd0, nd1):
+    import torch
+
+    idx = list(idx)
+    dyn = _dyn(len(idx), n)
+    dyn._active_states = torch.as_tensor(active[idx], dtype=torch.long)
+    dyn.post_hop_holdoff = torch.as_tensor(hold[idx], dtype=torch.long)
+    dyn.prev_state = torch.as_tensor(prev[idx], dtype=torch.long)
+    co = {"cis_amp": torch.as_tensor(ref[idx]), "nac_dot": torch.as_tensor(nd0[idx]).clone()}
+    cn = {"cis_amp": torch.as_tensor(tgt[idx]), "nac_dot": torch.as_tensor(nd1[idx]).clone()}
+    sw = dyn._detect_crossings(co, cn)
+    sw = np.full((len(idx), n), -1) if sw is None else sw.numpy().copy()
+    return sw, co["nac_dot"].numpy().copy(), cn["nac_dot"].numpy().copy(), dyn.post_hop_holdoff.numpy().copy()
+
+
+def probe_crossing_isolation(inp: Dict[str, Any]) -> Dict[str, Any]:
+    """trivial-crossing detection on a batch == the same detection on every trajectory alone; every returned row is an involution"""
+    rng = np.random.default_rng(inp["seed"])
+    nmol, n, nov = inp["nmol"], inp["nstates"], inp["nstates"] + 3
+    bad, kinds, nswaps = [], set(), 0
+    for trial in range(inp.get("trials", 12)):
+        args = _crossing_inputs(rng, nmol, n, nov)
+        full = _crossing_call(range(nmol), n, *args)
+        for m in range(nmol):
+            one = _crossing_call([m], n, *args)
+            nswaps += int((one[0] >= 0).any())
+            for what, a, b in (("swap map", full[0][m], one[0][0]), ("old coupling", full[1][m], one[1][0]), ("new coupling", full[2][m], one[2][0]), ("hold-off", full[3][m], one[3][0])):
+                if not np.array_equal(a, b):
+                    bad.append(f"trial {trial}: {what} of trajectory {m} differs in the batch ({np.asarray(a).tolist()}) from the stand-alone result ({np.asarray(b).tolist()}); hold-off history {args[2].tolist()}")
+                    kinds.add("crossing_isolation")
+            row = full[0][m]
+            for i, j in enumerate(row):
+                if j >= 0 and (row[j] != i or j == i):
+                    bad.append(f"trial {trial}: swap map row {row.tolist()} of trajectory {m} is not an involution")
+                    kinds.add("crossing_not_permutation")
+    return {"ok": not bad, "observed": bad[:5] or [f"{nswaps} stand-alone detections with a swap"], "expected": "crossing detection acts per trajectory; the relabelling is a permutation", "predicate": "",
+            "fields": {"kinds": sorted(kinds), "nmol": nmol}, "nontrivial": nswaps > 0}
+
+
+PROBES = {"crossing_isolation": probe_crossing_isolation, "norm": probe_norm, "hop_probabilities": probe_hop_probabilities, "rescale": probe_rescale, "relabel": probe_relabel, "isolation": probe_isolation}
 
 
 def gen_cases(ctx: Ctx):
@@ -311,6 +379,8 @@ def gen_cases(ctx: Ctx):
     cases.append(("relabel", {"seed": 3, "swap_to": [2, -1, 0], "active": 1}))
     cases.append(("relabel", {"seed": 4, "swap_to": [1, 0, 1], "active": 0}))   # 3-cycle artefact of the assignment step (not an involution)
     cases.append(("relabel", {"seed": 5, "swap_to": [1, 2, 0], "active": 0}))   # a true 3-cycle (bijection)
+    for i in range(6 if ctx.thorough else 2):
+        cases.append(("crossing_isolation", {"seed": int(rng.integers(0, 10**6)), "nmol": int(rng.integers(3, 6)), "nstates": int(rng.integers(3, 7)), "trials": 60 if ctx.thorough else 40}))
     for i in range(4 if ctx.thorough else 2):
         cases.append(("isolation", {"seed": int(rng.integers(0, 10**6)), "nstates": int(rng.integers(2, 6)), "substeps": [None, 8][i % 2], "spike": float(rng.uniform(10, 60))}))
     return cases
@@ -451,4 +521,4 @@ def run(ctx: Ctx):
         if isinstance(r, Exception) or r is None:
             ctx.obligation(f"probe {name} evaluated", False, repr(r)[-1500:], kind="harness")
             continue
-        ctx.probe_case(name, c, r["ok"], fields=r["fields"], observed=r["observed"], expected=r["expected"], predicate=r["predicate"], stratum=name)
+        ctx.probe_case(name, c, r["ok"], fields=r["fields"], observed=r["observed"], expected=r["expected"], predicate=r["predicate"], stratum=name, nontrivial=r.get("nontrivial", True))
